@@ -23,6 +23,14 @@ SAC = "lerax/algorithm/sac.py"
 
 ENTRIES = [
     # ---------------------------------------------------------------- C03
+    V("H-v-onpolicy-done-helper", ["C03", "C04", "C08", "C19", "C11", "C12"], (ONP, "        done = termination | truncation", "        done = self._episode_over(termination, truncation)"), ("lerax/algorithm/on_policy.py", "    gae_lambda: eqx.AbstractVar[float]\n\n    def step(", "    gae_lambda: eqx.AbstractVar[float]\n\n    def _episode_over(self, termination, truncation):\n        return termination | truncation\n\n    def step(")),
+    M("H-onpolicy-done-helper-broken", ["C03", "C04"], ["C03.8", "C04.4"], (ONP, "        done = termination | truncation", "        done = self._episode_over(termination, truncation)"), ("lerax/algorithm/on_policy.py", "    gae_lambda: eqx.AbstractVar[float]\n\n    def step(", "    gae_lambda: eqx.AbstractVar[float]\n\n    def _episode_over(self, termination, truncation):\n        return termination\n\n    def step(")),
+    V("H-v-offpolicy-timeout-helper", ["C05", "C07"], (OFP, "        timeout = truncation & ~termination", "        timeout = _pure_timeout(termination, truncation)"), (OFP, "class AbstractOffPolicyStepState", "def _pure_timeout(termination, truncation):\n    return truncation & ~termination\n\n\nclass AbstractOffPolicyStepState")),
+    M("H-offpolicy-timeout-helper-broken", ["C05", "C07"], ["C05.1", "C07.6"], (OFP, "        timeout = truncation & ~termination", "        timeout = _pure_timeout(termination, truncation)"), (OFP, "class AbstractOffPolicyStepState", "def _pure_timeout(termination, truncation):\n    return truncation\n\n\nclass AbstractOffPolicyStepState")),
+    V("H-v-gae-mask-helper", "C03", (RB, "        next_non_terminals = 1.0 - self.dones.astype(float)", "        next_non_terminals = self._continuing()"), (RB, "    def compute_returns_and_advantages(", "    def _continuing(self):\n        return 1.0 - self.dones.astype(float)\n\n    def compute_returns_and_advantages(")),
+    M("H-gae-mask-helper-broken", "C03", "C03", (RB, "        next_non_terminals = 1.0 - self.dones.astype(float)", "        next_non_terminals = self._continuing()"), (RB, "    def compute_returns_and_advantages(", "    def _continuing(self):\n        return self.dones.astype(float)\n\n    def compute_returns_and_advantages(")),
+    V("H-v-dqn-mask-helper", "C07", (DQN, "        not_terminal = (~batch.dones | batch.timeouts).astype(float)", "        not_terminal = _bootstrap_mask(batch)"), (DQN, "class DQNState[", "def _bootstrap_mask(batch):\n    return (~batch.dones | batch.timeouts).astype(float)\n\n\nclass DQNState[")),
+    M("H-dqn-mask-helper-broken", "C07", "C07", (DQN, "        not_terminal = (~batch.dones | batch.timeouts).astype(float)", "        not_terminal = _bootstrap_mask(batch)"), (DQN, "class DQNState[", "def _bootstrap_mask(batch):\n    return (~batch.dones).astype(float)\n\n\nclass DQNState[")),
     M("C03-disc-nomask", "C03", "C03.3", (RB, "discounts = gamma * gae_lambda * next_non_terminals", "discounts = gamma * gae_lambda")),
     M("C03-boot-nomask", "C03", "C03.3", (RB, "gamma * next_values * next_non_terminals - self.values", "gamma * next_values - self.values")),
     M("C03-forward", "C03", "C03.1", (RB, "(deltas, discounts), reverse=True", "(deltas, discounts), reverse=False")),
